@@ -114,8 +114,8 @@ ISR_CODE = bytes((0xF5, 0x3A, COUNTER & 0xFF, COUNTER >> 8, 0x3C, 0x32, COUNTER 
 # (first 32/36 T-states of the frame), so it is accepted a second time; save points then fall *inside* the active window
 ISR_SHORT = bytes((0xFB, 0x00, 0xED, 0x4D))
 
-DEFAULT = dict(fmt='szx', machine='48K', cmio=0, python=0, t0='near', isr='long')
-ALTS = dict(fmt=['z80'], machine=['128K'], cmio=[1], python=[1], t0=['zero', 'late', 'big', 'display', 'huge'], isr=['short'])
+DEFAULT = dict(fmt='szx', machine='48K', cmio=0, python=0, t0='near', isr='long', verbose=0)
+ALTS = dict(fmt=['z80'], machine=['128K'], cmio=[1], python=[1], t0=['zero', 'late', 'big', 'display', 'huge'], isr=['short'], verbose=[1])
 
 
 def t0_value(name, machine, seq_len):
@@ -194,7 +194,15 @@ def trace_args(cfg, src, n, dst):
         a.insert(0, '--cmio')
     if cfg['python']:
         a.insert(0, '--python')
+    if cfg.get('verbose') and dst.endswith(('mid.szx', 'mid.z80', 'split.szx')):
+        # both legs of the split run log every instruction (-v: the simulators call back into Python for the disassembly
+        # and the trace line after each instruction); the uninterrupted reference run stays silent
+        a.insert(0, '-v')
     return a
+
+
+def _log_lines(text):
+    return [l.rstrip() for l in text.splitlines() if len(l) > 6 and l[0] == '$' and l[5] == ' ']
 
 
 def run_case(cfg, seq, n_total, splits=None):
@@ -214,6 +222,15 @@ def run_case(cfg, seq, n_total, splits=None):
     want = snap_state(full, frame)
     out = []
     legs = 1
+    want_log = None
+    if cfg.get('verbose'):
+        # second oracle for the logging path: the instructions logged by the two legs, one after the other, are the
+        # instructions logged by one uninterrupted run
+        rv = tools.run_tool('trace', ['-v'] + first + trace_args(cfg, init, n_total, os.path.join(d, 'full-v.szx')))
+        legs += 1
+        want_log = _log_lines(rv.out)
+        if rv.rc or len(want_log) != n_total:
+            return [(0, ['uninterrupted -v run: rc {} {}, {} instructions logged, {} expected'.format(rv.rc, rv.exc, len(want_log), n_total)])], legs
     mid = os.path.join(d, 'mid.' + cfg['fmt'])
     split = os.path.join(d, 'split.szx')
     for n1 in (splits if splits is not None else range(1, n_total)):
@@ -225,6 +242,12 @@ def run_case(cfg, seq, n_total, splits=None):
             continue
         got = snap_state(split, frame)
         diffs = []
+        if want_log is not None:
+            got_log = _log_lines(r1.out) + _log_lines(r2.out)
+            if got_log != want_log:
+                i = next((i for i, (x, y) in enumerate(zip(got_log, want_log)) if x != y), min(len(got_log), len(want_log)))
+                diffs.append('log: instruction {} is {!r} in the split run, {!r} in the uninterrupted run ({} / {} lines)'.format(
+                    i + 1, got_log[i] if i < len(got_log) else None, want_log[i] if i < len(want_log) else None, len(got_log), len(want_log)))
         for k in want:
             if k == 'memptr' and cfg['fmt'] == 'z80':
                 continue        # Z80 files carry no MEMPTR (exempt in the property)
@@ -267,6 +290,11 @@ def configs(d):
                 cfg = dict(DEFAULT, machine=machine, cmio=1, python=py, fmt=fmt, t0='display')
                 if cfg not in seen:
                     seen.append(cfg)
+    # instruction logging on the split legs, on each simulator and machine
+    for kw in (dict(python=1), dict(cmio=1), dict(machine='128K'), dict(machine='128K', python=1), dict(fmt='z80')):
+        cfg = dict(DEFAULT, verbose=1, **kw)
+        if cfg not in seen:
+            seen.append(cfg)
     # the 128K machine with each other choice (the paging and AY fields exist only there)
     for k, v in (('fmt', 'z80'), ('python', 1), ('cmio', 1)):
         cfg = dict(DEFAULT, machine='128K', **{k: v})
@@ -311,7 +339,7 @@ def _shard(shard, nshards, tier, seed):
         stats.transitions += legs
         stats.traces += n_total - 1
         names = '>'.join(L[i][0] for i in seq)
-        ctag = '{fmt}/{machine}/cmio{cmio}/py{python}/t0-{t0}/isr-{isr}'.format(**cfg)
+        ctag = '{fmt}/{machine}/cmio{cmio}/py{python}/t0-{t0}/isr-{isr}'.format(**cfg) + ('/v' if cfg.get('verbose') else '')
         stats.state((ctag, names))
         stats.nontriv((ctag, names))
         stats.counters['cfg_' + ctag] += 1
@@ -330,7 +358,7 @@ def run(tier, seed):
     meta = dict(
         rule='programs = prologue + every letter ({}) + epilogue; EVERY split point n1 = 1..N-1 (N = 100/112 instructions: prologue, letters, HALT '
              'wait, IM 2 interrupt routine, LDIR, prefix chain, port writes, loop); configurations = deviations <= {} from (szx, 48K, C, plain, '
-             'start T = frame-180) over fmt z80, 128K, --cmio, --python, start T in {{3 frames later, frame-60, 2^24-170}}; evaluations = split points; transitions = trace.main executions'.format(
+             'start T = frame-180) over fmt z80, 128K, --cmio, --python, start T in {{3 frames later, frame-60, 2^24-170}}, -v on both legs of the split run (the per-instruction logging path of each simulator; the uninterrupted run stays silent); evaluations = split points; transitions = trace.main executions'.format(
                  'single letters' if tier == 'quick' else 'single letters + all pairs of 9 core letters', 1 if tier == 'quick' else 2),
         exhaustive=True,
         bound='all split points of every generated program; configuration deviations d <= {}'.format(1 if tier == 'quick' else 2),
